@@ -419,6 +419,15 @@ def mp_several(r):
     return ops + ["mp_exit", "end"]
 
 
+def gen_typed(rng, tier, mult):
+    """the typed wrappers of elasticarray.h over six record types (harness/h_typed.c; judged against a constant)"""
+    r = rng.fork("typed")
+    cases = []
+    for n in [0, 1, 2, 3, 4, 5, 7, 8, 9, 16, 17, 100] + [r.range(0, 600) for _ in range((20 if tier == "quick" else 200) * mult)]:
+        cases.append(["typed %d %d" % (n, r.below(256))])
+    return cases
+
+
 def gen_mp(rng, tier, mult):
     n = (800 if tier == "quick" else 8000) * mult
     cases = []
@@ -602,6 +611,10 @@ def components(ctx):
                             "in one process (mp_use <size> switches the pool in use; chunks of per-pool sequences across the "
                             "cache size interleaved, all four pools in turn), one exit for all of them; "
                             "non-trivial = >= 5 malloc/free", bb_fresh=True, **common),
+        vlib.Component("typed", "h_typed.c", BB_SRCS, ["upecho"], gen_typed, nontrivial=lambda c: not c[0].startswith("typed 0 "),
+                       rule="typed: the ELASTICARRAY_DECL wrappers for uint8_t, int, void *, structs of 3, 16 and 24 bytes: append (singly, "
+                            "bulk), get, iter, exportdup, shrink, resize, truncate, export of n = 0..600 records, counts and contents "
+                            "compared with what was put in (no model: the wrappers only pass sizeof(rectype) on; judged against a constant)"),
     ]
 
 
